@@ -3,7 +3,7 @@ import RlibModel.Model.SegtreeItems
 Line-protocol driver for engine `segtree` (properties C01, C02).
 
 Case line:  `<item> <ctor> <n> <v…> ; op ; op ; …`
-  item  min | max | sum | minadd | maxadd | sumadd | mm | smm | aff | aa | str
+  item  min | max | sum | minadd | maxadd | sumadd | mm | smm | aff | aa | str | flipz | flipb
         (mm = Combinator<MinAdd,MaxAdd>, smm = Combinator<Combinator<SumAdd,MinAdd>,MaxAdd>, aa = Combinator<AffHash,AffHash>)
   value `v`, or `v@md` (`x@a:b` for aff/aa, `w@k:c` for str): an element that carries a pending modifier of its own
   ctor  new (one value) | slice | iter (n values)
@@ -305,6 +305,26 @@ def ioAff : ItemIO AffHash (Int × Int) (Int × Int × Int) :=
 def ioAA : ItemIO (AffHash × AffHash) (Int × Int) ((Int × Int × Int) × (Int × Int × Int)) :=
   ⟨prodItem affHashItem affHashItem, fun s => (affVal? s).map fun v => (affElem v.1 v.2, affElem (2 * v.1 + 1) v.2),
    intPair, predAA, combDbg AffHash.dbg AffHash.dbg, fun a => s!"({showAff a.1},{showAff a.2})"⟩
+/-- `0` / `1`, or `b@1` for an element that carries a pending flip of its own -/
+def flipVal? (s : String) : Option Flip :=
+  match intVal? s with
+  | some (v, m) => if (v = 0 ∨ v = 1) ∧ (m = 0 ∨ m = 1) then some ⟨v, 1, m == 1⟩ else none
+  | none => none
+
+def predFlip : List String → Option (Int × Int → Bool)
+  | ["ge", c] => (parseInt? c).map fun c a => decide (a.1 ≥ c)
+  | ["zeros", c] => (parseInt? c).map fun c a => decide (a.2 - a.1 ≥ c)
+  | ["len", c] => (parseInt? c).map fun c a => decide (a.2 ≥ c)
+  | ts => predConst ts
+
+def byteMod : List String → Option Nat
+  | [m] => (parseNat? m).bind fun m => if m < 256 then some m else none
+  | _ => none
+
+def ioFlipZ : ItemIO Flip Unit (Int × Int) :=
+  ⟨flipZItem, flipVal?, unitMod, predFlip, Flip.dbg "FlipZ", showPairI⟩
+def ioFlipB : ItemIO Flip Nat (Int × Int) :=
+  ⟨flipBItem, flipVal?, byteMod, predFlip, Flip.dbg "FlipB", showPairI⟩
 def ioStr : ItemIO StrCat (Nat × Nat) (List Nat) :=
   ⟨strCatItem, strVal?, natPair, predStr, StrCat.dbg, showWord⟩
 
@@ -328,6 +348,8 @@ def handle (line : String) : String :=
         | "smm" => runCase ioSMM ctor vals n ops
         | "aff" => runCase ioAff ctor vals n ops
         | "aa" => runCase ioAA ctor vals n ops
+        | "flipz" => runCase ioFlipZ ctor vals n ops
+        | "flipb" => runCase ioFlipB ctor vals n ops
         | "str" => runCase ioStr ctor vals n ops
         | _ => badLine line
     | _ => badLine line
